@@ -160,7 +160,7 @@ def _dt_value(s, d):
 # --------------------------------------------------------------------------- input construction
 
 
-def point_inputs(case):
+def _point_inputs_base(case):
     s = _pset(case)
     env = s['env']
     alt = _alt_value(s, env['alts'][case['alt']])
@@ -185,7 +185,7 @@ def point_inputs(case):
     }
 
 
-def profile_inputs(case):
+def _profile_inputs_base(case):
     s = _pset(case)
     env = s['env']
     n = case['n']
@@ -232,7 +232,7 @@ def profile_inputs(case):
     }
 
 
-def fuel_menu(case):
+def _fuel_menu_base(case):
     s = _pset(case)
     p = s['par']
     oew, mpl, lf = p['min_mass'], p['max_payload'], case['lf']
@@ -243,6 +243,58 @@ def fuel_menu(case):
     else:
         reserve = [0.0, 0.01 * p['max_mass'], 0.05 * p['max_mass']][case['res']]
     return dict(est=est, mtow=mtow, oew=oew, mpl=mpl, lf=lf, reserve=reserve)
+
+
+# One-argument variations (case key 'vary'): the named argument of the call is perturbed and every
+# other argument stays bit-identical to the base call. Used by the history sub-lattices to enumerate
+# "second call on the same object that differs in exactly one argument".
+ARRAY_ARGS = ['temperature', 'altitude', 'v_tas', 'rocd', 'acceleration', 'in_cruise', 'groundspeed']
+_ARRAY_DELTA = {
+    'temperature': 25.0, 'altitude': -250.0, 'v_tas': 6.0, 'rocd': 1.5, 'acceleration': 0.15, 'groundspeed': 12.0,
+}  # fmt: skip
+FUEL_ARGS = ['est', 'mtow', 'oew', 'mpl', 'lf', 'reserve']
+
+
+def _vary_arrays(case, inp):
+    v = case.get('vary')
+    if v in _ARRAY_DELTA:
+        inp[v] = [x + _ARRAY_DELTA[v] for x in inp[v]]
+    elif v == 'in_cruise':
+        inp[v] = [not x for x in inp[v]]
+    elif v == 'segment_distance':
+        inp[v] = inp[v] * 1.5
+    elif v == 'mass' and 'mass' in inp:
+        inp[v] = [x * 0.97 for x in inp[v]]
+    return inp
+
+
+def point_inputs(case):
+    return _vary_arrays(case, _point_inputs_base(case))
+
+
+def profile_inputs(case):
+    return _vary_arrays(case, _profile_inputs_base(case))
+
+
+def fuel_menu(case):
+    f = _fuel_menu_base(case)
+    v = case.get('vary')
+    if v in FUEL_ARGS:
+        p = _pset(case)['par']
+        f[v] = {
+            'est': f['est'] * 0.97, 'mtow': f['mtow'] * 0.98, 'oew': f['oew'] * 1.02, 'mpl': f['mpl'] * 0.9,
+            'lf': f['lf'] - 0.1, 'reserve': f['reserve'] + (0.02 if case['k'] == 'fr' else 0.01 * p['max_mass']),
+        }[v]  # fmt: skip
+    return f
+
+
+def prescribed_mass(case):
+    m = _pset(case)['par'][MASSES[case['m']]]
+    return m * 0.97 if case.get('vary') == 'mass' else m
+
+
+def n_iter(case):
+    return 2 if case.get('vary') == 'it' else case['it']
 
 
 # --------------------------------------------------------------------------- lattices
@@ -304,6 +356,39 @@ def sublattices(tier, seed):
         {
             'name': 'two calls on one model object',
             'axes': {'eng': ENGINES, 'ps': [0, 1], 'first call': list(range(8)), 'second call': list(range(8))},
+            'cases': cases,
+        }
+    )
+    # two calls on one model object that differ in exactly ONE argument (all others bit-identical),
+    # for every argument of every entry point, in both orders
+    cases = []
+    arg_axis = {}
+    for eng in ENGINES:
+        for ps in (0, 1):
+            base = dict(eng=eng, ps=ps)
+            bases = [dict(base, k='pt', alt=4, dT=3, cr=2, m=1)]
+            for pr in ('mixed', 'climb'):
+                prof = dict(base, n=5, prof=pr, spd='accelerating', cr='middle', seg=50000.0, gs=0.0, m=1, it=10)
+                bases += [dict(prof, k='ci'), dict(prof, k='cf')]
+                bases += [dict(prof, k=k, est='high', mtow='max', lf=1.0, res=1) for k in ('fr', 'fv')]
+            for b in bases:
+                if b['k'] == 'pt':
+                    args = ['mass'] + ARRAY_ARGS
+                elif b['k'] in ('ci', 'cf'):
+                    args = ARRAY_ARGS + ['segment_distance', 'mass', 'it']
+                else:
+                    args = ARRAY_ARGS + ['segment_distance'] + FUEL_ARGS + ['it']
+                arg_axis[b['k']] = args
+                for a in args:
+                    var = dict(b, vary=a)
+                    cases += [dict(k='hist', a=b, b=var), dict(k='hist', a=var, b=b)]
+    subs.append(
+        {
+            'name': 'two calls on one model object differing in exactly one argument',
+            'axes': {
+                'eng': ENGINES, 'ps': [0, 1], 'entry': ['pt', 'ci', 'cf', 'fr', 'fv'], 'profile': ['mixed', 'climb'],
+                'varied argument': sorted({a for v in arg_axis.values() for a in v}), 'order': ['base first', 'variant first'],
+            },  # fmt: skip
             'cases': cases,
         }
     )
@@ -380,10 +465,10 @@ def _call_entry(case, inp, model):
     args = [a[k] for k in _ORDER] + [a['segment_distance']]
     s = _pset(case)
     if case['k'] in ('ci', 'cf'):
-        args += [s['par'][MASSES[case['m']]], case['it']]
+        args += [prescribed_mass(case), n_iter(case)]
     else:
         f = fuel_menu(case)
-        args += [f['est'], f['mtow'], f['oew'], f['mpl'], f['lf'], f['reserve'], case['it']]
+        args += [f['est'], f['mtow'], f['oew'], f['mpl'], f['lf'], f['reserve'], n_iter(case)]
     model.calculate_specific_ground_range = spy
     try:
         r = getattr(model, ENTRY[case['k']])(*args)
@@ -520,16 +605,16 @@ def _run_profile(case, model):
 
     total = ret[0] - ret[-1]
     if k in ('ci', 'cf'):
-        m = par[MASSES[case['m']]]
+        m = prescribed_mass(case)
         got = ret[0] if k == 'ci' else ret[-1]
         if got != m:
             vio.append(V('prescribed-mass', f'{ENTRY[k]}: prescribed {m}, profile {"starts" if k == "ci" else "ends"} at {got!r}'))
-        r = ref.iterate_constant_mass(par, inp, inp['segment_distance'], m, case['it'], 'initial' if k == 'ci' else 'final')
+        r = ref.iterate_constant_mass(par, inp, inp['segment_distance'], m, n_iter(case), 'initial' if k == 'ci' else 'final')
         if r['margin'] < ref.EPS_BRANCH:
             return {'outcome': f'{k}:ambiguous-branch', 'nontrivial': False, 'violations': []}
         if len(calls) != r['evaluations'] or not all(_close(ret[i], r['mass'][i]) for i in range(n)):
             vio.append(
-                V('mass-ne-reference-iteration', f'{ENTRY[k]} n_iter={case["it"]}: returned {ret} after {len(calls)} evaluations; '
+                V('mass-ne-reference-iteration', f'{ENTRY[k]} n_iter={n_iter(case)}: returned {ret} after {len(calls)} evaluations; '
                   f'reference fixed-point iteration gives {r["mass"]} after {r["evaluations"]}',
                   finding=F_BACKWARD if backward else None)
             )  # fmt: skip
@@ -539,7 +624,7 @@ def _run_profile(case, model):
         over = [j for j, c in enumerate(calls) if j >= 2 and c[0][0] > f['mtow']]
         if ret[0] > f['mtow'] or over:
             vio.append(V('exceeds-mtow', f'{ENTRY[k]}: initial mass {ret[0]!r} (iterates {[calls[j][0][0] for j in over]}) > MTOW {f["mtow"]}'))
-        stop = 'early' if len(calls) < case['it'] + 1 else 'exhausted'
+        stop = 'early' if len(calls) < n_iter(case) + 1 else 'exhausted'
         outcome = f'{k}:{stop} after {len(calls)}:' + ('at-mtow' if ret[0] == f['mtow'] else 'below-mtow')
     return {'outcome': outcome, 'nontrivial': total > 0, 'violations': vio}
 
